@@ -41,7 +41,7 @@ func c17Probes() []int {
 func (propC17) Gen(r *Rand) *Plan {
 	target := []string{"map", "map", "states", "wordchars", "whitespacechars"}[r.Intn(5)]
 	probes := c17Probes()
-	nops := r.Range(1, 30*Scale)
+	nops := r.Range(1, 30*r.Size())
 	var ops []Op
 	for i := 0; i < nops; i++ {
 		switch r.Weighted([]int{10, 2, 1, 4}) {
